@@ -558,7 +558,14 @@ func sameDir(a, b string) bool {
 			continue
 		}
 		if i != 1 {
-			return false
+			// an mtime set by an operation during the history: the real clock moved between
+			// the runner's reading and the operation's
+			ma, ea := strconv.ParseInt(fa[i], 10, 64)
+			mb, eb := strconv.ParseInt(fb[i], 10, 64)
+			if ea != nil || eb != nil || ma < 1e15 || mb < 1e15 || ma-mb > 5*sec || mb-ma > 5*sec {
+				return false
+			}
+			continue
 		}
 		va, ea := strconv.ParseInt(string(common.UnHex(fa[1])), 10, 64)
 		vb, eb := strconv.ParseInt(string(common.UnHex(fb[1])), 10, 64)
